@@ -30,6 +30,23 @@ class Unfoldable(Exception):
     pass
 
 
+class CompiledPattern:
+    """Value of `re.compile(<folded string>[, flags])` in the constant domain."""
+
+    def __init__(self, pattern: str, flags: int = 0):
+        self.pattern = pattern
+        self.flags = flags
+
+    def __repr__(self) -> str:
+        return f"re.compile({self.pattern!r})"
+
+    def __eq__(self, o) -> bool:
+        return isinstance(o, CompiledPattern) and (o.pattern, o.flags) == (self.pattern, self.flags)
+
+    def __hash__(self) -> int:
+        return hash((self.pattern, self.flags))
+
+
 _SAFE_CALLS = {
     "sorted": sorted,
     "set": set,
@@ -341,6 +358,11 @@ class Folder:
                     raise Unfoldable("range too large")
                 return rr
             return _SAFE_CALLS[n.func.id](*args, **kwargs)
+        if isinstance(n.func, ast.Attribute) and n.func.attr == "compile" and isinstance(n.func.value, ast.Name) and n.func.value.id not in env:
+            r = self.prog.resolve_name(mod, n.func.value.id)
+            if isinstance(r, tuple) and r[0] == "ext" and r[1] == "re" and args and isinstance(args[0], str):
+                fl = args[1] if len(args) > 1 and isinstance(args[1], int) else kwargs.get("flags", 0)
+                return CompiledPattern(args[0], fl if isinstance(fl, int) else 0)
         callee = self._package_function(n.func, mod, env)
         if callee is not None:
             return self._apply(callee, args, kwargs)
